@@ -154,6 +154,16 @@ func genOptRaw(r *rand.Rand, ns *nameSpace, nsPrefix string, allowReq bool) *Opt
 	if o.Kind == "flag" && chance(r, 0.03) {
 		o.Choices = []string{"a"} // accepted by the library; see C04
 	}
+	if (o.Kind == "scalar" || o.Kind == "slice" || o.Kind == "ptr") && isIntType(o.VType) && o.Base == 0 && chance(r, 0.1) {
+		// choices on a non-text type: the choice test comes before the conversion
+		o.Choices = pick(r, [][]string{{"1", "2", "10"}, {"7"}, {"5", "007"}})
+		o.Defaults = nil
+		o.OptVals = nil
+	}
+	if chance(r, 0.25) {
+		// a description, so that a help request inside ParseArgs lays out real rows (namespaces make the names wide)
+		o.Desc = pick(r, []string{"d", "some description", "a longer description of this option that will be wrapped at the terminal width", "naïve 世界", "100% sure"})
+	}
 	if o.Kind == "scalar" && o.VType == "string" && len(o.Choices) == 0 && chance(r, 0.08) {
 		o.Validator = true
 	}
